@@ -195,7 +195,7 @@ def dispatch(E, fv, args, kw, st, node):
             if (c.inline or (_pure_ctx(st) and not c.functional)) and not c.trusted and inspect.isfunction(fn):
                 yield from call_repo(E, fn, qn, args, kw, st, dropped, node)
             else:
-                yield from apply_contract(E, c, fn if inspect.isfunction(fn) else None, args, kw, st, node)
+                yield from apply_contract(E, c, fn if (inspect.isfunction(fn) or isinstance(fn, type)) else None, args, kw, st, node)
             return
         if inspect.ismethod(o) and isinstance(o.__self__, type):
             # classmethod accessed on a class
@@ -275,12 +275,8 @@ def apply_spec(E, name, args, st):
         raise OutsideSubset(f"spec {name}: arity")
     if sp.body is None or sp.recursive:
         reads = getattr(sp, "reads", None) or []
-        for rec in E.U.records.values():
-            for fld in reads:
-                fty = E.U.field_ty(rec.qualname, fld)
-                if fty is not None:
-                    E.heap_arr(st, fld, fty)
-        key = (name, tuple(sorted((k, a.get_id()) for k, a in st.heap.items() if k[0] in reads and not _is_base(a))))
+        rk = _read_keys(E, st, reads)
+        key = (name, tuple(sorted((k, a.get_id()) for k, a in st.heap.items() if k in rk and not _is_base(a))))
         if key not in E.specfns:
             sorts = [E.U.sort(t) for t in ptys]
             f = z3.Function(E.fresh_name("spec_" + name) if reads else "spec_" + name, *sorts, E.U.sort(rty))
@@ -559,6 +555,25 @@ def havoc_all(E, st):
         st.ghost[g] = E.fresh(st.ghost[g].ty, "ghost_" + g)
 
 
+def _read_keys(E, st, reads):
+    """heap keys named by a `reads` list: 'field' (every class) or 'Class.field' (that class's field type only)"""
+    keys = set()
+    for r in reads:
+        if "." in r:
+            cls, fld = r.rsplit(".", 1)
+            fty = E.U.field_ty(cls, fld)
+            if fty is not None:
+                E.heap_arr(st, fld, fty)
+                keys.add((fld, fty.key))
+        else:
+            for rec in E.U.records.values():
+                fty = E.U.field_ty(rec.qualname, r)
+                if fty is not None:
+                    E.heap_arr(st, r, fty)
+                    keys.add((r, fty.key))
+    return keys
+
+
 def _is_base(arr):
     """the initial version of a heap field (lazily created, the same constant in every state)"""
     return z3.is_const(arr) and arr.decl().name().startswith("H0_")
@@ -576,13 +591,8 @@ def apply_contract_pure(E, c, fn, args, kw, st, node):
     if rty is None or rty is NONE:
         return SVal(None, NONE)
     if c.reads is not None:
-        # touch the fields so that their arrays exist before the snapshot is taken
-        for rec in E.U.records.values():
-            for fld in c.reads:
-                fty = E.U.field_ty(rec.qualname, fld)
-                if fty is not None:
-                    E.heap_arr(st, fld, fty)
-        hkey = tuple(sorted((k, a.get_id()) for k, a in st.heap.items() if k[0] in c.reads and not _is_base(a)))
+        rk = _read_keys(E, st, c.reads)
+        hkey = tuple(sorted((k, a.get_id()) for k, a in st.heap.items() if k in rk and not _is_base(a)))
     else:
         hkey = tuple(sorted((k, a.get_id()) for k, a in st.heap.items() if not _is_base(a))) \
             + tuple(sorted((g, v.t.get_id()) for g, v in st.ghost.items()))
